@@ -101,9 +101,10 @@ var combos []combo
 
 func init() {
 	for _, s := range allSuites {
-		// SSL 3.0 is left out: a bfe_tls.Client pinned to SSL 3.0 does not complete a handshake with
-		// bfe_tls.Server in this setup (it rejects the server's first record), and Go's crypto/tls has no SSL 3.0.
-		for _, v := range []uint16{0x0301, 0x0302, 0x0303} {
+		// SSL 3.0: no client available here negotiates it (bfe_tls.Client: "TLS 1.0 is the minimum version supported
+		// as a client"; Go's crypto/tls dropped it), but bfe_tls.Server accepts it.  For 0x0300 the two ends are
+		// therefore keyed directly from a master secret by the hook VerifC42Established (real record layer, no key exchange).
+		for _, v := range []uint16{0x0300, 0x0301, 0x0302, 0x0303} {
 			if isAEAD(s) && v != 0x0303 {
 				continue
 			}
@@ -132,6 +133,10 @@ type swConn struct {
 	mu     sync.Mutex
 	useBuf bool
 	buf    []byte
+	chunk  int  // > 0: at most chunk bytes per Read
+	odd    bool // every other Read returns (0, nil); the last bytes come together with io.EOF
+	tick   int
+	sent   []byte // what the server wrote after the switch (its alerts)
 }
 
 func (s *swConn) Read(p []byte) (int, error) {
@@ -144,8 +149,18 @@ func (s *swConn) Read(p []byte) (int, error) {
 	if len(s.buf) == 0 {
 		return 0, io.EOF
 	}
+	s.tick++
+	if s.odd && s.tick%2 == 0 {
+		return 0, nil // an empty read
+	}
+	if s.chunk > 0 && len(p) > s.chunk {
+		p = p[:s.chunk]
+	}
 	n := copy(p, s.buf)
 	s.buf = s.buf[n:]
+	if s.odd && len(s.buf) == 0 {
+		return n, io.EOF // data and EOF together
+	}
 	return n, nil
 }
 
@@ -154,7 +169,10 @@ func (s *swConn) Write(p []byte) (int, error) {
 	ub := s.useBuf
 	s.mu.Unlock()
 	if ub {
-		return len(p), nil // alerts the server sends after the switch are discarded
+		s.mu.Lock()
+		s.sent = append(s.sent, p...) // the alerts the server sends after the switch
+		s.mu.Unlock()
+		return len(p), nil
 	}
 	return s.Conn.Write(p)
 }
@@ -170,7 +188,20 @@ func (p *pair) close() {
 	p.sw.Conn.Close()
 }
 
-func handshake(suite, vers uint16) (*pair, error) {
+func handshake(suite, vers uint16, kr *vh.Rand) (*pair, error) {
+	if vers == 0x0300 { // keyed directly, see combos
+		c, s := net.Pipe()
+		sw := &swConn{Conn: s}
+		master, cr, sr := kr.Bytes(48), kr.Bytes(32), kr.Bytes(32)
+		cli := bfe_tls.VerifC42Established(c, true, vers, suite, master, cr, sr)
+		srv := bfe_tls.VerifC42Established(sw, false, vers, suite, master, cr, sr)
+		if cli == nil || srv == nil {
+			c.Close()
+			s.Close()
+			return nil, fmt.Errorf("unknown suite")
+		}
+		return &pair{cli: cli, srv: srv, sw: sw, cpipe: c}, nil
+	}
 	certs()
 	c, s := net.Pipe()
 	cc := &bfe_tls.Config{InsecureSkipVerify: true, MinVersion: vers, MaxVersion: vers,
@@ -223,6 +254,8 @@ type rec struct {
 
 type caseOp struct {
 	suite, vers uint16
+	chunk       int
+	odd         bool
 	rb          int
 	sent        []rec
 	wire        []string
@@ -253,6 +286,16 @@ func parseOp(op string) (*caseOp, bool) {
 				return nil, false
 			}
 			o.rb = x
+		case "ch":
+			if strings.HasSuffix(v, "e") {
+				o.odd = true
+				v = v[:len(v)-1]
+			}
+			x, err := strconv.Atoi(v)
+			if err != nil || x < 0 {
+				return nil, false
+			}
+			o.chunk = x
 		case "sent":
 			if v == "" {
 				continue
@@ -438,7 +481,10 @@ func exec(op string) string {
 		return "bad-op"
 	}
 	return vh.SafeTimeout(60*time.Second, func() string {
-		p, err := handshake(o.suite, o.vers)
+		h := fnv.New64a()
+		h.Write([]byte(op))
+		kr := vh.NewRand(h.Sum64() ^ 0x5eed)
+		p, err := handshake(o.suite, o.vers, kr)
 		if err != nil {
 			return "hs-fail:" + strings.ReplaceAll(err.Error(), " ", "_")
 		}
@@ -454,7 +500,7 @@ func exec(op string) string {
 		var YR [][]byte
 		Y := func(i int) []byte {
 			if other == nil {
-				q, err := handshake(o.suite, o.vers)
+				q, err := handshake(o.suite, o.vers, kr)
 				if err != nil {
 					panic("second handshake failed: " + err.Error())
 				}
@@ -465,8 +511,6 @@ func exec(op string) string {
 			}
 			return YR[i]
 		}
-		h := fnv.New64a()
-		h.Write([]byte(op))
 		w, ok := buildWire(o, R, Y, vh.NewRand(h.Sum64()))
 		if other != nil {
 			other.close()
@@ -478,6 +522,7 @@ func exec(op string) string {
 		p.sw.mu.Lock()
 		p.sw.useBuf = true
 		p.sw.buf = w
+		p.sw.chunk, p.sw.odd = o.chunk, o.odd
 		p.sw.mu.Unlock()
 		buf := make([]byte, o.rb)
 		var got []byte
@@ -532,7 +577,7 @@ func genPayload(r *vh.Rand) []byte {
 		n = r.Range(1000, 1100)
 	case 7:
 		if r.Chance(1, 4) {
-			n = []int{16000, 15999, 4096}[r.Intn(3)]
+			n = []int{16384, 16385, 16380, 4096, 16384, 18400, 18432}[r.Intn(7)] // maxPlaintext, +1, around maxCiphertext
 		} else {
 			n = r.Range(200, 600)
 		}
@@ -555,8 +600,12 @@ func genSent(r *vh.Rand) []rec {
 				s = append(s, rec{21, []byte{2, byte(1 + r.Intn(255))}})
 			case 1: // handshake record after the handshake
 				s = append(s, rec{22, r.Bytes(r.Range(1, 12))})
-			case 2: // unknown record type
-				s = append(s, rec{byte(24 + r.Intn(3)), r.Bytes(r.Range(0, 5))})
+			case 2: // unknown record type, or a ChangeCipherSpec after the handshake
+				if r.Bool() {
+					s = append(s, rec{20, []byte{1}})
+				} else {
+					s = append(s, rec{byte(24 + r.Intn(3)), r.Bytes(r.Range(0, 5))})
+				}
 			case 3: // malformed alert
 				s = append(s, rec{21, r.Bytes([]int{0, 1, 3}[r.Intn(3)])})
 			default: // alert with an illegal level
@@ -763,9 +812,13 @@ func genWire(r *vh.Rand, c combo, sent []rec) []string {
 	return w
 }
 
-func render(c combo, rb int, sent []rec, wire []string) string {
+func render(c combo, rb int, sent []rec, wire []string) string { return renderCh(c, rb, "0", sent, wire) }
+
+// ch: how the transport hands the bytes to the record layer: "0" everything that fits, "<n>" at most n bytes per
+// Read (records split across reads), suffix "e": every other Read is empty and the last bytes come with io.EOF
+func renderCh(c combo, rb int, ch string, sent []rec, wire []string) string {
 	var sb strings.Builder
-	fmt.Fprintf(&sb, "s=%s;v=%s;rb=%d;sent=", hex4(c.suite), hex4(c.vers), rb)
+	fmt.Fprintf(&sb, "s=%s;v=%s;rb=%d;ch=%s;sent=", hex4(c.suite), hex4(c.vers), rb, ch)
 	for i, s := range sent {
 		if i > 0 {
 			sb.WriteByte(',')
@@ -788,8 +841,32 @@ func gen(r *vh.Rand) string {
 		}
 		sent = append(sent, rec{23, []byte{1, 2, 3}}, rec{21, []byte{1, 0}})
 	}
+	if r.Chance(1, 120) { // sequence-number continuity over many records (byte carry at 256), tampering late
+		sent = nil
+		k := r.Range(250, 330)
+		for i := 0; i < k; i++ {
+			sent = append(sent, rec{23, r.Bytes(r.Range(1, 3))})
+		}
+		sent = append(sent, rec{21, []byte{1, 0}})
+		w := make([]string, len(sent))
+		for i := range w {
+			w[i] = "o" + strconv.Itoa(i)
+		}
+		switch r.Intn(4) {
+		case 0:
+			i := r.Range(200, k-2)
+			w[i], w[i+1] = w[i+1], w[i]
+		case 1:
+			i := r.Range(200, k-1)
+			w = append(w[:i], w[i+1:]...)
+		case 2:
+			w[r.Range(254, 258)%k] = fmt.Sprintf("m%d.3.01", r.Range(254, 258)%k)
+		}
+		return renderCh(c, 4096, []string{"0", "1", "7e"}[r.Intn(3)], sent, w)
+	}
 	rb := []int{1, 3, 16, 512, 4096, 65536}[r.Intn(6)]
-	return render(c, rb, sent, genWire(r, c, sent))
+	ch := []string{"0", "0", "0", "1", "2", "3", "5", "7", "64", "1e", "4e", "0e", "1000"}[r.Intn(13)]
+	return renderCh(c, rb, ch, sent, genWire(r, c, sent))
 }
 
 func main() {
@@ -820,6 +897,16 @@ func main() {
 				{"o0", "p17." + v + ".18433.0"},
 			} {
 				emit(render(c, 4096, sent, w))
+			}
+			// the same tamperings with the transport cutting the stream after every byte / with empty reads and data+EOF
+			for _, ch := range []string{"1", "3e"} {
+				for _, w := range [][]string{{"o0", "o1", "o2", "o3"}, {"o0", "o2", "o1", "o3"}, {"o0", "m1.0.01", "o2"}, {"o0", "o1"},
+					{"o0", "o1", "z1703"}, {"o0", "o1", "p17." + v + ".100.40"}, {"o0", "v1.0300", "o2"}, {"o0", "v1.0301", "o2"}, {"o0", "v1.0302", "o2"}, {"o0", "v1.0303", "o2"}} {
+					if len(w) > 1 && w[1] == "v1."+v {
+						continue // not a modification on this connection
+					}
+					emit(renderCh(c, 7, ch, sent, w))
+				}
 			}
 			// every critical body length of the family: injected (as application data, alert, handshake) in front of
 			// and between the real records, and as a real record shrunk to that length
